@@ -501,7 +501,7 @@ def _array_shim(typecode, init=()):
 
 def _sparse_shim(real):
     def make(arg1, shape=None, copy=False, **kw):
-        if ACTIVE[0] and isinstance(arg1, tuple) and len(arg1) == 2 and isinstance(arg1[0], _SymData):
+        if ACTIVE[0] and isinstance(arg1, tuple) and len(arg1) == 2 and (isinstance(arg1[0], _SymData) or (isinstance(arg1[0], _np.ndarray) and arg1[0].dtype == object)):
             data, (row, col) = arg1
             dense = _fill(tuple(shape), S.ZERO)
             for v, i, j in zip(data, row, col):
